@@ -276,7 +276,10 @@ func (h *NativeKeyHashMap[K]) EqualNative(thread *Thread, other *NativeKeyHashMa
 	}
 
 	for hkey, hval := range h.m {
-		oval := other.m[hkey]
+		oval, present := other.m[hkey]
+		if !present {
+			return false, value.Undefined
+		}
 		eqVal, err := Equal(thread, hval.ToValue(), oval.ToValue())
 		if !err.IsUndefined() {
 			return false, err
@@ -310,7 +313,10 @@ func (h *NativeKeyHashMap[K]) LaxEqualNative(thread *Thread, other *NativeKeyHas
 	}
 
 	for hkey, hval := range h.m {
-		oval := other.m[hkey]
+		oval, present := other.m[hkey]
+		if !present {
+			return false, value.Undefined
+		}
 		eqVal, err := LaxEqual(thread, hval.ToValue(), oval.ToValue())
 		if !err.IsUndefined() {
 			return false, err
